@@ -22,7 +22,9 @@ from vlib.e2e_runner import Result
 ROCK = "rock {run}/rock 16 slot-size=4096 max-size=1048576"
 SQUID_WORKERS = 3
 # objects up to 64 KB (two 32 KB shared-memory pages) are shared through the memory cache, larger ones only through rock
-CONF = "maximum_object_size_in_memory 64 KB\n"
+# hopeless_kid_revival_delay: on a loaded machine a squid worker can lose the 7 s race with the starting disker several
+# times in a row; the master must keep restarting it instead of giving it up for an hour
+CONF = "maximum_object_size_in_memory 64 KB\nhopeless_kid_revival_delay 3 seconds\n"
 SIZES = st.one_of(st.sampled_from([40000, 100, 4000, 4200, 20000, 32000, 32768, 33000, 66000, 150000]), st.integers(0, 70000))
 
 
@@ -58,7 +60,7 @@ def _instance(env, nw=0):
     if sq is not None:
         env.discard(sq)
         env.instances.pop(nw, None)
-    sq = env.new_squid(ROCK, conf=CONF, cache_mem="16 MB", workers=SQUID_WORKERS, ports=SQUID_WORKERS, timeout=180)
+    sq = env.new_squid(ROCK, conf=CONF, cache_mem="16 MB", workers=SQUID_WORKERS, ports=SQUID_WORKERS, timeout=300)
     if not ds.wait_finished_rebuilding(sq, 120):
         env.discard(sq)
         return None
